@@ -33,17 +33,17 @@ def check_fit(ck, c, rnd, full):
     except Exception as e:      # noqa
         return bad('constructor-raises', 'constructor raised %r' % e, 'an Arc', repr(e))
     cen = complex(*A['c'])
-    if abs(arc.center - cen) > 1e-7 * size:
+    if not (abs(arc.center - cen) <= 1e-7 * size):
         return bad('center', 'centre %r' % arc.center, cen, arc.center)
-    if abs(arc.radius.real - A['r'][0]) > 1e-9 * A['r'][0] or abs(arc.radius.imag - A['r'][1]) > 1e-9 * A['r'][1]:
+    if not (abs(arc.radius.real - A['r'][0]) <= 1e-9 * A['r'][0]) or not (abs(arc.radius.imag - A['r'][1]) <= 1e-9 * A['r'][1]):
         return bad('radius-changed', 'radius %r (fits: must be unchanged)' % arc.radius, A['r'], arc.radius)
-    if abs(am.angle_diff(arc.theta, 15.0 * A['th'])) > 1e-5:
+    if not (abs(am.angle_diff(arc.theta, 15.0 * A['th'])) <= 1e-5):
         return bad('theta', 'theta %r' % arc.theta, 15.0 * A['th'], arc.theta)
-    if abs(arc.delta - 15.0 * A['dl']) > 1e-5:
+    if not (abs(arc.delta - 15.0 * A['dl']) <= 1e-5):
         return bad('delta', 'delta %r' % arc.delta, 15.0 * A['dl'], arc.delta)
-    if (abs(arc.delta) > 180 + 1e-5) != fa and n != 12:
+    if (not (abs(arc.delta) <= 180 + 1e-5)) != fa and n != 12:
         return bad('large_arc', 'spans %r degrees with large_arc=%s' % (arc.delta, fa), fa, arc.delta)
-    if (arc.delta > 0) != fs:
+    if not (arc.delta == arc.delta) or (arc.delta > 0) != fs:
         return bad('sweep-direction', 'delta %r with sweep=%s' % (arc.delta, fs), fs, arc.delta)
     # the walk: every 15-degree step
     sg = 1 if A['dl'] > 0 else -1
@@ -54,14 +54,14 @@ def check_fit(ck, c, rnd, full):
         t = j / float(n)
         pt = arc.point(t)
         exp = am.lat_point(A, A['th'] + sg * j)
-        if abs(pt - exp) > 1e-6 * size:
+        if not (abs(pt - exp) <= 1e-6 * size):
             return bad('point', 'point(%d/%d) = %r' % (j, n, pt), exp, pt)
-        if abs(am.on_ellipse_residual(arc, pt)) > 1e-7:
+        if not (abs(am.on_ellipse_residual(arc, pt)) <= 1e-7):
             return bad('point-off-ellipse', 'point(%d/%d) off the stored ellipse by %g' % (j, n, am.on_ellipse_residual(arc, pt)), 0, pt)
         ang = am.ecc_angle(arc, pt)
         if prev is not None:
             step = am.angle_diff(ang, prev)
-            if abs(step - sg * 15.0) > 1e-4:
+            if not (abs(step - sg * 15.0) <= 1e-4):
                 return bad('eccentric-angle-not-monotone', 'eccentric angle step %r at j=%d' % (step, j), sg * 15.0, step)
             total += step
         prev = ang
@@ -69,10 +69,10 @@ def check_fit(ck, c, rnd, full):
             for order in range(1, 7):
                 got = arc.derivative(t, order)
                 expd = (k ** order) * am.lat_point(A, A['th'] + sg * j + 6 * order, centred=True)
-                if abs(got - expd) > 1e-6 * (abs(k) ** order) * size:
+                if not (abs(got - expd) <= 1e-6 * (abs(k) ** order) * size):
                     return bad('derivative-order-%d' % order, 'derivative(%r, n=%d) = %r' % (t, order, got), expd, got)
     # acos near +-1 loses half the digits (theta = 0 or 180): end points are reproduced to ~1e-7 relative, not to rounding
-    if abs(arc.point(0) - arc.start) > 1e-6 * size or abs(arc.point(1) - arc.end) > 1e-6 * size:
+    if not (abs(arc.point(0) - arc.start) <= 1e-6 * size) or not (abs(arc.point(1) - arc.end) <= 1e-6 * size):
         return bad('endpoints', 'point(0)/point(1) = %r/%r' % (arc.point(0), arc.point(1)), (arc.start, arc.end), (arc.point(0), arc.point(1)))
     if full:
         for m in (1, 3):
@@ -81,8 +81,8 @@ def check_fit(ck, c, rnd, full):
                     curves = list(getattr(arc, name)(m))
                 except Exception as e:      # noqa
                     return bad(name + '-raises', '%s(%d) raised %r' % (name, m, e), 'curves', repr(e))
-                if not curves or abs(curves[0].start - arc.start) > 1e-9 * size or abs(curves[-1].end - arc.end) > 1e-9 * size \
-                        or any(abs(a.end - b.start) > 1e-9 * size for a, b in zip(curves, curves[1:])):
+                if not curves or not (abs(curves[0].start - arc.start) <= 1e-9 * size) or not (abs(curves[-1].end - arc.end) <= 1e-9 * size) \
+                        or any(not (abs(a.end - b.start) <= 1e-9 * size) for a, b in zip(curves, curves[1:])):
                     return bad(name + '-endpoints', '%s(%d) does not start/end at the arc end points' % (name, m),
                                (arc.start, arc.end), (curves[0].start, curves[-1].end) if curves else None)
     return True
